@@ -74,12 +74,16 @@ def err_names(fn: ast.AST | None) -> set[str]:
                 for x in ast.walk(n):
                     if isinstance(x, ast.Name) and isinstance(x.ctx, ast.Store):
                         other.add(x.id)
-        out = set()
-        for nm, vs in binds.items():
-            if nm in other:
-                continue
-            if any(not (isinstance(v, ast.Constant) and v.value is None) for v in vs) and all((isinstance(v, ast.Constant) and v.value is None) or _is_error_call(v) for v in vs):
-                out.add(nm)
+        out: set[str] = set()
+        changed = True
+        while changed:  # (a binding to another None-or-error local is fine: fixpoint)
+            changed = False
+            for nm, vs in binds.items():
+                if nm in other or nm in out:
+                    continue
+                if any(not (isinstance(v, ast.Constant) and v.value is None) for v in vs) and all((isinstance(v, ast.Constant) and v.value is None) or _is_error_call(v) or (isinstance(v, ast.Name) and v.id in out) for v in vs):
+                    out.add(nm)
+                    changed = True
         _ERR_NAMES[id(fn)] = out
     return _ERR_NAMES[id(fn)]
 
@@ -672,7 +676,13 @@ class NNState:
         d = dict(st)
         if node.kind == "stmt" and isinstance(node.ast, ast.Assign) and len(node.ast.targets) == 1 and isinstance(node.ast.targets[0], ast.Name) and node.ast.targets[0].id in self.tracked:
             v = node.ast.value
-            d[node.ast.targets[0].id] = "N" if isinstance(v, ast.Constant) and v.value is None else "E"
+            if isinstance(v, ast.Name) and v.id in self.tracked:
+                if v.id in d:
+                    d[node.ast.targets[0].id] = d[v.id]
+                else:
+                    d.pop(node.ast.targets[0].id, None)
+            else:
+                d[node.ast.targets[0].id] = "N" if isinstance(v, ast.Constant) and v.value is None else "E"
         tv = self.test_of(node.ast) if node.kind == "test" and node.ast is not None else None
         for s, lab in cfg.succ[n]:
             if lab == "x":
